@@ -121,3 +121,34 @@ fn t_framec_touch() {
     kani::assume(k < 4);
     wrap_touch(&mut c, k);
 }
+
+// get_lru (a promotion through &mut self that returns references): link fields only
+#[kani::modifies(link_fields(c, 0), link_fields(c, 1), link_fields(c, 2), link_fields(c, 3), link_fields(c, 4), link_fields(c, 5), link_fields(c, 6), link_fields(c, 7))]
+#[kani::ensures(|_r| true)]
+fn wrap_get_lru(c: &mut LruCache<u8, SV, BH>) -> bool { c.get_lru().is_some() }
+#[kani::proof_for_contract(wrap_get_lru)]
+#[kani::unwind(6)]
+fn t_framec_get_lru() {
+    table_defaults();
+    let n: u8 = kani::any();
+    kani::assume(n <= 3);
+    let mut c = prebuilt(n, 3);
+    let _ = wrap_get_lru(&mut c);
+}
+
+// removal of one entry: may write link fields, the table's own bookkeeping and current_size -- not the recorded
+// sizes, keys or values of the entries that stay, not max_size
+fn cur_size_ptr(c: &LruCache<u8, SV, BH>) -> *mut usize { &c.current_size as *const usize as *mut usize }
+#[kani::modifies(link_fields(c, 0), link_fields(c, 1), link_fields(c, 2), link_fields(c, 3), link_fields(c, 4), link_fields(c, 5), link_fields(c, 6), link_fields(c, 7),
+                 c.table.meta_full(), c.table.meta_items(), c.table.meta_growth_left(), cur_size_ptr(c))]
+#[kani::ensures(|_r| true)]
+fn wrap_remove(c: &mut LruCache<u8, SV, BH>, k: u8) -> bool { c.remove(&k).is_some() }
+#[kani::proof_for_contract(wrap_remove)]
+#[kani::unwind(6)]
+fn t_framec_remove() {
+    table_defaults();
+    let mut c = prebuilt(3, 3);
+    let k: u8 = kani::any();
+    kani::assume(k < 4);
+    let _ = wrap_remove(&mut c, k);
+}
